@@ -23,6 +23,10 @@ claimed = {
          "Theorems (every restriction, every typedef chain, every value): a value accepted by the check lies in an alternative of the restriction of every level (min/max = base-type bounds); conversely well-formed restrictions accept every member; each leaf-list element is checked on its own; a rejected write leaves the store unchanged and an accepted one stores the checked value; enum/bits/identityref/union acceptance implies declared membership. Tie: generated modules (all numeric bases, decimal64, string length, chains of depth 0-3, min/max, alternatives) × boundary candidate values × SetValue / UpsertFrom(JSON) / UpsertFrom(node), outcome and store compared with model and oracle.",
          "Trusted: Lean kernel, harness, regexp (uninterpreted predicate), float64 order on ≤2-fraction-digit decimals. Model is hand-written (no translator); patterns OR-ed is a recorded known finding (pinned by the repo's own test); union member restrictions are not enforced by the library and are outside the generated cases.",
          "DESIGN.md §8 C05"),
+ "C09": ("Lean 4 theorems over a model of choice handling in the editor (clear every other case at every enclosing choice, merge into the written case; reads descend into the chosen case only), invariant proved by mutual structural induction and lifted to histories; correspondence on upsert histories over 3 source and 3 target implementations",
+         "Theorems (every schema with choices at any depth, nested in cases, several per container): upsert preserves 'every choice has at most one case with data'; hence after every history of upserts; the surviving case is the one the source wrote; a source without data in any case changes nothing; a read reports one case only whatever the store holds; witness of the pinned tree's innermost-only clearing. Tie: histories of 1–8 upserts alternating cases (root and inside a list entry), full target re-read and compared with the model after each step, invariant checked on the real store, reads of two-case stores compared with the model's read.",
+         "Trusted: Lean kernel, harness, reference store (Choose = first case in sorted ident order with data). Lists inside cases are not in the model. The theorems assume the target satisfied the invariant before the step.",
+         "DESIGN.md §8 C09"),
  "C10": ("Lean 4 theorems over the Conv dispatch model; go/ast translator regenerates the per-source-kind clause tables of toInt64/toUInt64/toDecimal64, the narrowing wrappers and range-check helpers; full boundary-matrix correspondence against val.Conv",
          "Theorems (all 8 integer targets, all Go integer kinds, floats as exact dyadics, decimal strings, every value): a successful conversion returns exactly the denoted number inside the target range; out-of-range, negative-into-unsigned and fractional sources are errors; in-range integer sources succeed; list forms are element-wise all-or-nothing; integer->decimal64 only when float64 holds the number exactly. Tie: clause tables regenerated from val/conv.go each run and closed by `decide`; the complete boundary matrix (targets × source kinds × boundary values) is diffed against the model in the quick tier.",
          "Trusted: Lean kernel, extractor (regex on gofmt-normalised clauses; unknown = opaque), harness; strconv.Parse*, math.Trunc, float64(int64) rounding (assumed contracts exercised by the correspondence). Partial: enum/bits/identityref/union front end (node.NewValue) is checked under C05; float64->string rounding is a recorded known finding.",
